@@ -649,64 +649,7 @@ func c03R2(p *engine.Prog, r *engine.Report, ctx *c03ctx) {
 }
 
 func c03R3(p *engine.Prog, r *engine.Report, vb *ssa.Function) {
-	// (a) the canonical state is used only to derive a private view
-	for _, name := range []string{"Blockchain.validateBlock", "Blockchain.ValidateBlock", "Blockchain.generateEmptyBlock", "Blockchain.GenerateEmptyBlock", "Blockchain.ValidateSubChain", "Blockchain.ProposeBlock", "Blockchain.processTxs", "Blockchain.filterTxs"} {
-		f := mustFunc(p, r, "blockchain", name)
-		if f == nil {
-			continue
-		}
-		for _, b := range f.Blocks {
-			for _, in := range b.Instrs {
-				u, ok := in.(*ssa.UnOp)
-				if !ok || u.Op != token.MUL {
-					continue
-				}
-				if _, isAS := loadOfField(u, "Blockchain", "appState"); !isAS {
-					continue
-				}
-				bad := ""
-				for _, ref := range *u.Referrers() {
-					switch x := ref.(type) {
-					case ssa.CallInstruction:
-						id := engine.CallID(x)
-						if id == "core/appstate.AppState.ForCheck" || id == "core/appstate.AppState.ForCheckWithOverwrite" || id == "core/appstate.AppState.Readonly" {
-							continue
-						}
-						bad = "passed to " + id
-					case *ssa.FieldAddr:
-						// reading a sub-object: allowed only for read-only getters
-						_, fld, _ := engine.FieldOf(x)
-						okRead := true
-						for _, r2 := range *x.Referrers() {
-							ld, isLd := r2.(*ssa.UnOp)
-							if !isLd {
-								okRead = false
-								continue
-							}
-							for _, r3 := range *ld.Referrers() {
-								if c3, isC := r3.(ssa.CallInstruction); isC {
-									if _, _, mut := getStateModel(p).mutatorCall(c3); mut {
-										okRead = false
-									}
-									if cal := c3.Common().StaticCallee(); cal != nil && mayMutate(p)[cal] {
-										okRead = false
-									}
-								}
-							}
-						}
-						if !okRead {
-							bad = "mutating use of appState." + fld
-						}
-					case *ssa.DebugRef:
-					default:
-						bad = "escapes"
-					}
-				}
-				r.Check(bad == "", "C03-R3a", engine.RelName(f)+"|chain.appState", p.InstrPos(u), "canonical state only read or used to derive a private view", "canonical state "+bad+" on a speculative path")
-			}
-		}
-	}
-	r.Floor("C03-R3a", 4, "ValidateBlock/GenerateEmptyBlock/ValidateSubChain/ProposeBlock derive views")
+	c03R3a(p, r, "C03-R3a")
 
 	// (b) AddBlock rollback discipline
 	ab := mustFunc(p, r, "blockchain", "Blockchain.AddBlock")
@@ -859,4 +802,67 @@ func repoWriters(p *engine.Prog) map[*ssa.Function]bool {
 		}
 	}
 	return out
+}
+
+// c03R3a: speculative paths use the canonical state only to derive a private view.
+func c03R3a(p *engine.Prog, r *engine.Report, rule string) {
+	// (a) the canonical state is used only to derive a private view
+	for _, name := range []string{"Blockchain.validateBlock", "Blockchain.ValidateBlock", "Blockchain.generateEmptyBlock", "Blockchain.GenerateEmptyBlock", "Blockchain.ValidateSubChain", "Blockchain.ProposeBlock", "Blockchain.processTxs", "Blockchain.filterTxs"} {
+		f := mustFunc(p, r, "blockchain", name)
+		if f == nil {
+			continue
+		}
+		for _, b := range f.Blocks {
+			for _, in := range b.Instrs {
+				u, ok := in.(*ssa.UnOp)
+				if !ok || u.Op != token.MUL {
+					continue
+				}
+				if _, isAS := loadOfField(u, "Blockchain", "appState"); !isAS {
+					continue
+				}
+				bad := ""
+				for _, ref := range *u.Referrers() {
+					switch x := ref.(type) {
+					case ssa.CallInstruction:
+						id := engine.CallID(x)
+						if id == "core/appstate.AppState.ForCheck" || id == "core/appstate.AppState.ForCheckWithOverwrite" || id == "core/appstate.AppState.Readonly" {
+							continue
+						}
+						bad = "passed to " + id
+					case *ssa.FieldAddr:
+						// reading a sub-object: allowed only for read-only getters
+						_, fld, _ := engine.FieldOf(x)
+						okRead := true
+						for _, r2 := range *x.Referrers() {
+							ld, isLd := r2.(*ssa.UnOp)
+							if !isLd {
+								okRead = false
+								continue
+							}
+							for _, r3 := range *ld.Referrers() {
+								if c3, isC := r3.(ssa.CallInstruction); isC {
+									if _, _, mut := getStateModel(p).mutatorCall(c3); mut {
+										okRead = false
+									}
+									if cal := c3.Common().StaticCallee(); cal != nil && mayMutate(p)[cal] {
+										okRead = false
+									}
+								}
+							}
+						}
+						if !okRead {
+							bad = "mutating use of appState." + fld
+						}
+					case *ssa.DebugRef:
+					default:
+						bad = "escapes"
+					}
+				}
+				r.Check(bad == "", rule, engine.RelName(f)+"|chain.appState", p.InstrPos(u), "canonical state only read or used to derive a private view", "canonical state "+bad+" on a speculative path")
+			}
+		}
+	}
+	r.Floor(rule, 4, "ValidateBlock/GenerateEmptyBlock/ValidateSubChain/ProposeBlock derive views")
+
 }
